@@ -14,6 +14,8 @@ def bound_of(atom):
 
 
 def run(chk, repo, tier):
+    from .common import no_hidden_state
+    no_hidden_state(chk, repo, 'C17')
     chk.clause('C17-a', 'pixel scale is divided by the scale factor on each axis; resample uses old/new', 3)
     chk.clause('C17-b', 'amplitude carries the 1/scale factor, OPD does not', 2)
     chk.clause('C17-c', 'mask: order-0 interpolation in both branches, re-binarised, cast to int', 4)
